@@ -826,6 +826,10 @@ func UnmarshalTypeCases(value *yaml.Node) (TypeCases, error) {
 func UnmarshalGenericNode(value *yaml.Node) (Type, error) {
 	simpleType := &SimpleType{NodeMeta: createNodeMeta(value)}
 
+	if value.Kind != yaml.MappingNode && len(value.Content) > 0 {
+		return nil, parseError(value, "a !generic must be specified as a mapping with `name` and `args`")
+	}
+
 	for i := 0; i < len(value.Content); i += 2 {
 		k := value.Content[i]
 		v := value.Content[i+1]
